@@ -716,7 +716,7 @@ async fn load_root<R: AsRef<[u8]>>(
         //   step 1.8. The value for Y is set by the authors of the application using TUF. For
         //   example, Y may be 2^10.
         ensure!(
-            root.signed.version.get() < original_root_version + max_root_updates,
+            root.signed.version.get() < original_root_version.saturating_add(max_root_updates),
             error::MaxUpdatesExceededSnafu { max_root_updates }
         );
         let path = format!("{}.root.json", root.signed.version.get() + 1);
